@@ -88,6 +88,8 @@ def gen_case(rng):
     if r < 0.2:
         pts = sorted(set(rng.randint(0, 60) for _ in range(rng.randint(1, 4))))
         p['plan'] = {'P': pts, 'Q': [], 'all': False, 'kind': 'subset'}
+        if rng.random() < 0.5:
+            p['plan'] = {'P': [], 'frac': sorted(rng.choice([0.0, 0.05, 0.3, 0.5, 0.8, 0.95, 0.999]) for _ in range(rng.randint(1, 3))), 'Q': [], 'all': False, 'kind': 'fraction'}
     elif r < 0.25:
         p['plan'] = {'P': [], 'Q': [], 'all': True, 'kind': 'all'}
     else:
@@ -178,6 +180,12 @@ def exec_case(p, res):
     _h.STEP_TIMEOUT = RUN_TIMEOUT
     try:
         with step_alarm():
+            if p['plan'] and p['plan'].get('frac') is not None:
+                def _count():
+                    seams.seed_global(p['tseed'])
+                    return solve(p, A, b, x0)
+                p = dict(p, plan=svdfault.resolve_fractions(p['plan'], _count))
+                seams.seed_global(p['tseed'])
             x, exc, f = svdfault.run_with_plan(lambda: solve(p, A, b, x0), p['plan'] or {})
     finally:
         _h.STEP_TIMEOUT = old_to
